@@ -131,6 +131,10 @@ pub struct Sheet {
     /// `$r: EXPR; a{b: $r}` instead of `a{b: EXPR}`
     pub via_var: bool,
     pub compressed: bool,
+    /// enumerated unit-triple family: only "no crash" is judged (the operands are not ordered, so the
+    /// value relation is outside the domain)
+    #[serde(default)]
+    pub crash_only: bool,
 }
 
 /// What the printer produced: the stylesheet, the text of the expression and the variable
@@ -431,6 +435,30 @@ fn levels(max_depth: usize) -> Vec<Vec<BoxedStrategy<E>>> {
 
 pub const MAX_DEPTH: usize = 4;
 
+/// every triple of units under clamp(), min() and max(), values 1 / 2 / 3 (5 184 sheets)
+pub fn unit_triples() -> Vec<Sheet> {
+    let us = [U::None, U::Px, U::Em, U::Rem, U::Pct, U::Vw, U::In, U::Pt, U::Deg, U::Turn, U::S, U::Ms];
+    let mut v = vec![];
+    let mut i = 0usize;
+    for a in us {
+        for b in us {
+            for c in us {
+                let (x, y, z) = (E::Num(N { milli: 1000, u: a }), E::Num(N { milli: 2000, u: b }), E::Num(N { milli: 3000, u: c }));
+                for k in 0..3 {
+                    let expr = match k {
+                        0 => E::Clamp(Box::new(x.clone()), Box::new(y.clone()), Box::new(z.clone())),
+                        1 => E::Min(vec![x.clone(), y.clone(), z.clone()]),
+                        _ => E::Max(vec![x.clone(), y.clone(), z.clone()]),
+                    };
+                    v.push(Sheet { expr, via_var: i % 5 == 0, compressed: i % 7 == 0, crash_only: true });
+                    i += 1;
+                }
+            }
+        }
+    }
+    v
+}
+
 pub fn sheet() -> BoxedStrategy<Sheet> {
     let lv = levels(MAX_DEPTH);
     let tops: Vec<BoxedStrategy<E>> = (0..4)
@@ -471,6 +499,7 @@ pub fn sheet() -> BoxedStrategy<Sheet> {
     ];
     (expr, prop::bool::weighted(0.15), prop::bool::weighted(0.25))
         .prop_map(|(expr, via_var, compressed)| Sheet {
+            crash_only: false,
             expr,
             via_var,
             compressed,
